@@ -368,7 +368,16 @@ func (w *c38World) liveCanon() string {
 
 // lookupsAgree checks on any registry that the three lookups and the key list tell
 // the same story for every wallet of the alphabet.
-func c38LookupsAgree(fx *c38Fixtures, reg *walletRegistry) string {
+func c38LookupsAgree(fx *c38Fixtures, reg *walletRegistry) (problem string) {
+	// a lookup that crashes on a registry state the operations produced is a violation
+	// (the node cannot serve its own registry), not a harness failure
+	if p, stack := vrep.Guard(func() { problem = c38LookupsAgreeUnguarded(fx, reg) }); p != nil {
+		return fmt.Sprintf("a registry lookup panicked: %v\n%s", p, stack)
+	}
+	return problem
+}
+
+func c38LookupsAgreeUnguarded(fx *c38Fixtures, reg *walletRegistry) string {
 	listed := map[string]bool{}
 	for _, k := range reg.getWalletsPublicKeys() {
 		listed[getWalletStorageKey(k)] = true
